@@ -59,6 +59,7 @@ def main():
         i += 2
     t0 = time.time()
     results, skipped, digests = {}, {}, {}
+    lane_bins = {}
     rc_final = 0
     main_ev = None
     for idx, lane in enumerate(lanes):
@@ -70,6 +71,16 @@ def main():
             skipped[name] = "build failed"
             continue
         binary = os.path.join(bindir, spec.get("bin", spec["crate"]))
+        if spec.get("digests") and not replay:
+            # lanes share profile directories (features differ): keep this lane's binary so that a
+            # digest mismatch can be re-checked case by case afterwards
+            import shutil
+            kept = os.path.join(scratch, f"{prop}-{name}.bin")
+            try:
+                shutil.copy2(binary, kept)
+                lane_bins[name] = kept
+            except OSError:
+                pass
         ev = evidence if idx == 0 else os.path.join(scratch, f"{prop}-{name}.json")
         cmd = [binary] + base_args + ["--evidence", ev, "--lane", name]
         dig = None
@@ -140,6 +151,39 @@ def main():
             known = {x["signature"]: x for x in json.load(f)["findings"] if x["property"] == prop and x.get("status") == "finding"}
     except Exception:  # noqa: BLE001
         pass
+    # A digest mismatch is only a lead: the case is re-executed on its own in both lanes and the
+    # full outcome tuples are compared; only a confirmed difference is a violation.
+    def tuple_of(lane, k):
+        b = lane_bins.get(lane)
+        if not b:
+            return None
+        rp = os.path.join(scratch, f"{prop}-recheck.json")
+        out = os.path.join(scratch, f"{prop}-recheck-{lane}.tuple")
+        size = {"C01/small": "Small", "C01/medium": "Medium", "C01/thresh": "AroundThreshold", "C01/large": "Large"}.get(k[0], "Small")
+        with open(rp, "w") as f:
+            json.dump({"replay": {"seed": int(arg("--seed", "1")), "stream": k[0], "case": int(k[1]), "size": size}}, f)
+        if os.path.exists(out):
+            os.remove(out)
+        try:
+            subprocess.run([b, "--prop", prop, "--tier", tier, "--seed", arg("--seed", "1"), "--replay", rp, "--dump-tuple", out,
+                            "--evidence", os.path.join(scratch, "recheck-ev.json"), "--replay-dir", os.path.join(scratch, "recheck-replays"),
+                            "--known", os.path.join(ROOT, "known_findings.json")],
+                           cwd=ROOT, env=vcheck.env_base(), stdout=subprocess.DEVNULL, stderr=subprocess.DEVNULL, timeout=900)
+            with open(out) as f:
+                return f.read()
+        except Exception:  # noqa: BLE001
+            return None
+    confirmed, unconfirmed, unchecked = [], 0, 0
+    for ref, other, k in mismatches[:50]:
+        a, b = tuple_of(ref, k), tuple_of(other, k)
+        if a is None or b is None:
+            unchecked += 1
+        elif a != b:
+            confirmed.append((ref, other, k))
+        else:
+            unconfirmed += 1
+    mismatches_all = len(mismatches)
+    mismatches = confirmed
     new_viol = 0
     seen_sig = set()
     for ref, other, k in mismatches[:50]:
@@ -169,7 +213,12 @@ def main():
     cov["lanes_run"] = [l["name"] for l in lanes if l["name"] not in skipped]
     cov["lanes_skipped"] = skipped
     cov["cross_lane_digests_compared"] = compared
-    cov["cross_lane_digest_mismatches"] = len(mismatches)
+    cov["cross_lane_digest_mismatches"] = mismatches_all
+    cov["cross_lane_mismatches_confirmed_by_reexecution"] = len(confirmed)
+    cov["cross_lane_mismatches_not_reproduced"] = unconfirmed
+    cov["cross_lane_mismatches_not_recheckable"] = unchecked
+    if unconfirmed or unchecked:
+        cov["inconclusive"] = cov.get("inconclusive", 0) + unconfirmed + unchecked
     main_ev["violations"] = main_ev.get("violations", 0) + sum(r.get("violations", 0) for r in results.values()) + new_viol
     main_ev["wall_s"] = round(time.time() - t0, 3)
     with open(evidence, "w") as f:
